@@ -8,7 +8,7 @@ from contracts import optics
 def build(chk):
     chk.assumptions_used.update(["A-REAL", "A-NP"])
     chk.math_lemmas.append("energy functional of a word: ||fft x||^2 = N ||x||^2 per axis, ||exp(i phi) x|| = ||x||, ||roll x|| = ||x|| (DFT Parseval, library contract)")
-    chk.notes.append("requires: square N x N input, N even, wvl, d1, d2 > 0, z != 0 (f != 0), scalars are Python floats (ZeroDivisionError semantics in twoStepFresnel)")
+    chk.notes.append("requires: square N x N input, N even, wvl, d1, d2 > 0, z != 0 (f != 0), scalar arguments Python or NumPy floats (twoStepFresnel checked under both: a zero NumPy divisor gives inf, not an exception)")
     optics.c10_obligations(chk)
 
 
